@@ -210,3 +210,90 @@ func TestIndependentValues(t *testing.T) {
 	}
 	vlib.S().Exhaustive("independent-values")
 }
+
+// Part "monadic-loop": a composition may refer to itself - the usual way to write a loop with FlatMap:
+//
+//	loop = src.FlatMap(func(v) { if v < n { return loop }; return Just(10*v) })
+//
+// Evaluating it is a finite computation (n turns): every turn runs src's effect and the continuation once,
+// in that order, and the value is the last continuation's. Evaluated twice, nested in a larger composition,
+// through Eval and through Subscribe.
+
+type loopCase struct {
+	Turns int `json:"turns"`
+	Via   int `json:"via"`  // 0 Eval, 1 Subscribe, 2 nested: Just(0).FlatMap(_ -> loop).FlatMap(v -> Just(v+1))
+	Self  int `json:"self"` // what the continuation returns while not ready: 0 the loop itself, 1 a FlatMap built on the loop (loop.FlatMap(Just))
+}
+
+func runLoopCase(c loopCase) (key, msg string) {
+	var trace []string
+	count := 0
+	src := fpgo.MonadIONewGenerics(func() int { count++; trace = append(trace, fmt.Sprintf("src%d", count)); return count })
+	var loop *fpgo.MonadIODef[int]
+	loop = src.FlatMap(func(v int) *fpgo.MonadIODef[int] {
+		trace = append(trace, fmt.Sprintf("k%d", v))
+		if v%c.Turns != 0 {
+			if c.Self == 1 {
+				return loop.FlatMap(func(x int) *fpgo.MonadIODef[int] { return fpgo.MonadIOJustGenerics(x) })
+			}
+			return loop
+		}
+		return fpgo.MonadIOJustGenerics(10 * v)
+	})
+	for round := 1; round <= 2; round++ {
+		trace = trace[:0]
+		var got int
+		delivered := 0
+		p, st := vlib.Try(func() {
+			switch c.Via {
+			case 0:
+				got, delivered = loop.Eval(), 1
+			case 1:
+				loop.Subscribe(fpgo.Subscription[int]{OnNext: func(v int) { got = v; delivered++ }})
+			default:
+				got, delivered = fpgo.MonadIOJustGenerics(0).FlatMap(func(int) *fpgo.MonadIODef[int] { return loop }).
+					FlatMap(func(v int) *fpgo.MonadIODef[int] { return fpgo.MonadIOJustGenerics(v + 1) }).Eval(), 1
+			}
+		})
+		if p != nil {
+			return "C11/monadic-loop/panic", fmt.Sprintf("%v\n%s", p, firstFrames(st))
+		}
+		var wantTrace []string
+		for i := 1; i <= c.Turns; i++ {
+			n := (round-1)*c.Turns + i
+			wantTrace = append(wantTrace, fmt.Sprintf("src%d", n), fmt.Sprintf("k%d", n))
+		}
+		want := 10 * round * c.Turns
+		if c.Via == 2 {
+			want++
+		}
+		if fmt.Sprint(trace) != fmt.Sprint(wantTrace) {
+			return "C11/monadic-loop/effects", fmt.Sprintf("evaluation %d of a %d-turn loop ran %v, want %v", round, c.Turns, trace, wantTrace)
+		}
+		if delivered != 1 || got != want {
+			return "C11/monadic-loop/value", fmt.Sprintf("evaluation %d of a %d-turn loop yielded %d (%d deliveries), want %d once", round, c.Turns, got, delivered, want)
+		}
+	}
+	return "", ""
+}
+
+func TestMonadicLoop(t *testing.T) {
+	if vlib.Replaying() {
+		t.Skip()
+	}
+	for turns := 1; turns <= 8; turns++ {
+		for via := 0; via < 3; via++ {
+			for self := 0; self < 2; self++ {
+				c := loopCase{turns, via, self}
+				vlib.S().Eval("monadic-loop")
+				if turns >= 2 {
+					vlib.S().NonTrivial("monadic-loop", fmt.Sprintf("%+v", c))
+				}
+				if key, msg := runLoopCase(c); key != "" {
+					vlib.Fail(t, key, "%+v: %s", c, msg)
+				}
+			}
+		}
+	}
+	vlib.S().Exhaustive("monadic-loop")
+}
